@@ -354,6 +354,59 @@ static void render(const Variant& x)
   }
 }
 
+// the value with `data->ref` of every heap block (white-box), e.g. L#2[i1,s#1:6162]
+static void renderRefs(const Variant& x)
+{
+  unsigned long ref = (unsigned long)x.data->ref;
+  switch(x.getType())
+  {
+  case Variant::stringType: printf("s#%lu:", ref); putStr(x.toString()); break;
+  case Variant::listType:
+  {
+    const List<Variant>& l = x.toList();
+    printf("L#%lu[", ref);
+    usize n = 0;
+    for(List<Variant>::Iterator i = l.begin(), end = l.end(); i != end; ++i, ++n)
+    {
+      if(n) printf(",");
+      renderRefs(*i);
+    }
+    printf("]");
+    break;
+  }
+  case Variant::arrayType:
+  {
+    const Array<Variant>& a = x.toArray();
+    printf("A#%lu[", ref);
+    for(usize i = 0; i < a.size(); ++i)
+    {
+      if(i) printf(",");
+      renderRefs(((const Variant*)a)[i]);
+    }
+    printf("]");
+    break;
+  }
+  case Variant::mapType:
+  {
+    const HashMap<String, Variant>& m = x.toMap();
+    printf("M#%lu{", ref);
+    usize n = 0;
+    for(HashMap<String, Variant>::Iterator i = m.begin(), end = m.end(); i != end; ++i, ++n)
+    {
+      if(n) printf(",");
+      putStr(i.key());
+      printf(":");
+      renderRefs(*i);
+    }
+    printf("}");
+    break;
+  }
+  default:
+    if(ref) printf("!ref%lu", ref);
+    render(x);
+  }
+}
+
 static void observe()
 {
   for(int i = 0; i < NV; ++i)
@@ -366,6 +419,8 @@ static void observe()
     printf(" ");
     render(x);
     if(x.isNull() != (x.getType() == Variant::nullType)) printf("!isNull");
+    printf(" ");
+    renderRefs(x);
   }
   printf(" # ");
   for(int i = 0; i < NV; ++i)
